@@ -8,6 +8,10 @@ out=seeded/RESULTS.txt
 for d in $(ls seeded | grep '^C[0-9][0-9]' | sort); do
   [ -f "seeded/$d/patch.diff" ] || continue
   prop="${d%%.*}"
+  if [ -f "seeded/$d/NEUTRALISED" ]; then
+    echo "$d $tier: NEUTRALISED ($(cut -c1-120 seeded/$d/NEUTRALISED))" | tee -a "$out.tmp"
+    continue
+  fi
   r=$(./selftest/run.sh "file:$PWD/seeded/$d/patch.diff" "$prop" "$tier" 2>&1 | grep SELFTEST | head -1 | sed 's/ witness=.*//' | cut -c1-200)
   echo "$d $tier: $r" | tee -a "$out.tmp"
 done
